@@ -54,6 +54,10 @@ CHECKS = {
          "For each seeded write history executed on the real journaling store over the simulated OS, every op-log position x crash variant (unsynced tail lost / kept / cut at every record boundary and at sampled mid-record bytes, zero-filled, garbage, 4KiB hole; directory operations cut at their durable point) is materialised and re-opened by the real recovery code; the recovered root must be the last acknowledged or an in-flight one, its closure readable byte-for-byte, and the store must accept and persist a further commit. Plus at-rest single-bit damage of records proven acknowledged (must be reported as data loss, never silently truncated) and of the final record (must roll back silently). Enumeration is complete per history up to the stated sampling; histories are sampled.",
          "Trusts the persistence model stated in the evidence file (what a crash may do to unsynced data and directory operations) and that op-log positions are the only crash points; the file system's own behaviour is simulated, fsync is recorded not issued; built with go1.26.8 (repo tests use 1.26.2).",
          "deterministic simulation: recorded op log -> crash-image enumeration -> real recovery + reference model", "DESIGN.md §6.1 C03", "dsim-store"),
+ "C41": ("exploration",
+         "Seeded orders of open (default / fail-fast / skip-timeout), write+commit, read, close and kill among 2-4 simulated processes on one journaled directory (separate object graphs and descriptors, real flock on tmpfs, fake clock for the lock time-out), with torn journal tails and stale indexes planted between writers; invariants after every operation: at most one exclusive instance, contended opens are read-only or ErrDatabaseLocked as requested, commits through read-only instances fail, instances only show roots some writer wrote, and the simulated OS's op log attributes no create/write/truncate/rename/unlink to a process holding a read-only instance.",
+         "Processes share one address space; a kill falls between operations and releases descriptors and locks (crash points inside an operation are C03's subject). LOCK-file creation and fsync are not counted as modifications. dbfactory's singleton cache is not in the loop (stores are constructed directly).",
+         "deterministic simulation: multi-process S0 schedules over the real store with real flock, OS-level write attribution", "DESIGN.md §6.1 C41", "dsim-store"),
 }
 
 def main():
